@@ -30,14 +30,14 @@ Definition ecell_eqb : ecell -> ecell -> bool := list_eqb scalar_eqb.
 Definition cells_eqb : list ecell -> list ecell -> bool := list_eqb ecell_eqb.
 Definition rows_eqb : list (list ecell) -> list (list ecell) -> bool := list_eqb cells_eqb.
 
-Definition is_multi (c : rawcol) : bool := match c with RMulti _ _ _ => true | _ => false end.
+Definition is_multi (c : rawcol) : bool := match c with RMulti _ _ _ _ => true | _ => false end.
 
 (* the statement of Props/C01.v evaluated on one column: map canonical_cell *)
 Definition spec_col (c : rawcol) : option (list ecell) :=
   match c with
   | RNum cells => Some (map canon_num cells)
   | RCat cats cells => Some (map (canon_cat cats) cells)
-  | RMulti cats sep cells => mapM (canon_multi cats sep) cells
+  | RMulti _ cats sep cells => mapM (canon_multi cats sep) cells
   | RSeq cells => mapM canon_seq cells
   | RTime cells => Some (map canon_time cells)
   | REmb cells => Some (map canon_vec cells)
@@ -48,17 +48,29 @@ Definition spec_col (c : rawcol) : option (list ecell) :=
 
 (* C01: the mapper pipeline reproduces the implementation's cells (sets sorted),
    and so does the cell-by-cell canonical encoding *)
-Definition check_col {L} (index : list L) (c : rawcol) (obs : list ecell) : bool :=
-  match encode_col index c with
+Definition check_col {L} (leqb : L -> L -> bool) (index : list L) (c : rawcol) (obs : list ecell) : bool :=
+  match encode_col leqb index c with
   | Some (ECol cells) =>
       cells_eqb (if is_multi c then map sort_cell cells else cells) obs
       && match spec_col c with Some sp => cells_eqb sp obs | None => false end
   | _ => false
   end.
 
+(* only the pipeline (used on the known-finding inputs, where the faithful
+   pipeline and the implementation agree with each other but not with the spec) *)
+Definition check_pipeline {L} (leqb : L -> L -> bool) (index : list L) (c : rawcol) (obs : list ecell) : bool :=
+  match encode_col leqb index c with
+  | Some (ECol cells) => cells_eqb (if is_multi c then map sort_cell cells else cells) obs
+  | _ => false
+  end.
+Definition spec_differs (c : rawcol) (obs : list ecell) : bool :=
+  match spec_col c with Some sp => negb (cells_eqb sp obs) | None => true end.
+
 (* the model says the implementation raises on this column *)
-Definition col_raises {L} (index : list L) (c : rawcol) : bool :=
-  match encode_col index c with None => true | Some _ => false end.
+Definition col_raises {L} (leqb : L -> L -> bool) (index : list L) (c : rawcol) : bool :=
+  match encode_col leqb index c with None => true | Some _ => false end.
+
+Definition unit_eqb (a b : unit) : bool := true.
 
 (* ------------------------------------------------------------------------- *)
 (* C02: the whole frame *)
@@ -88,8 +100,8 @@ Definition opt_eqb {A} (e : A -> A -> bool) (a b : option A) : bool :=
   | _, _ => false
   end.
 
-Definition check_tf {L} (target : option name) (df : frame L) (o : obs_tf) : bool :=
-  match convert target df with
+Definition check_tf {L} (leqb : L -> L -> bool) (target : option name) (df : frame L) (o : obs_tf) : bool :=
+  match convert leqb target df with
   | None => false
   | Some t =>
       forallb (fun st =>
